@@ -195,6 +195,66 @@ class Cx:
         raise Inconclusive("%s: origin %r is neither an accepted nor a refuted form" % (what, o))
 
 
+def _cx_stores(self, body, place_rx=None):
+    """[(site, place_origin, value_origin)] for every projected store in body."""
+    out = []
+    rx = re.compile(place_rx) if place_rx else None
+    for s in body.all_sites():
+        if s.is_term():
+            continue
+        n = s.node()
+        if n["k"] != "assign" or not n["p"]["pj"]:
+            continue
+        po = body.origin_place(n["p"])
+        if rx is not None and not rx.search(po):
+            continue
+        out.append((s, po, body._origin_def(None, "assign", n, 0, None, ())))
+    return out
+
+
+def _cx_arg(self, site, i, subst=None):
+    return site.body.origin_op(site.node()["args"][i], 0, subst)
+
+
+def _cx_args(self, site, subst=None):
+    return [site.body.origin_op(a, 0, subst) for a in site.node()["args"]]
+
+
+def _cx_skipped_only_if(self, body, site, lit, what=None, exits=None):
+    """Every normal path from entry to an exit that does not execute `site` crosses an edge
+    establishing lit."""
+    eng = mirlib.OnlyIf(body.facts, body)
+    edges = eng.establishing_edges(lit)
+    exits = exits if exits is not None else body.return_blocks()
+    reach = body.reachable(0, "normal", cut_edges=edges, cut_blocks={site.bb})
+    bad = [e for e in exits if e in reach and e != site.bb]
+    return self.check(not bad, what or "skipped only if %r" % lit, site, {"exits_reached_without": bad, "literal": repr(lit)} if bad else None, key="skip-onlyif %r" % lit)
+
+
+def _cx_ret_sites(self, body, variant=None, adt_rx=None):
+    """Sites that build the returned value: `_0 = Adt::Variant` aggregates (directly into _0)."""
+    out = []
+    for s in body.all_sites():
+        if s.is_term():
+            continue
+        n = s.node()
+        if n["k"] == "assign" and n["p"]["l"] == 0 and not n["p"]["pj"] and n["rv"]["k"] == "agg":
+            rv = n["rv"]
+            if variant is not None and rv.get("variant") != variant:
+                continue
+            if adt_rx is not None and not re.search(adt_rx, rv.get("adt", "")):
+                continue
+            out.append(s)
+    return out
+
+
+Cx.stores = _cx_stores
+Cx.arg = _cx_arg
+Cx.args = _cx_args
+Cx.skipped_only_if = _cx_skipped_only_if
+Cx.ret_sites = _cx_ret_sites
+
+
 def load_known():
     p = os.path.join(ROOT, "known_findings.json")
     if not os.path.exists(p):
